@@ -682,7 +682,7 @@ fn main() {
         let maxlen = ctx.tier.pick(4, 5);
         let mut def = CheckDef::new(
             "C07",
-            "model_checking",
+            "exploration",
             "bounded-exhaustive differential against the reference interpreter vh::refwin: (programs) every token sequence of length 1..=L over the 30-token WIN alphabet (and, beyond L, every WELL-FORMED program — the stack never underflows and is empty at the end — of exactly L+1 tokens over the full push alphabet and L+2 tokens over a reduced one) as the program string of a frame-data record, evaluated by the real parser + SymbolFile::walk_frame through a mock FrameWalker in 4 callee states (+3 always-failing states for length <= 2), comparing Some/None, the exact set of reported registers and their values; (fpo) the full product size-field menu^3 x allocates_base_pointer x esp menu x ebp valid/invalid x ebx present/missing x 5 grand-callee settings x callee eip equal/unequal to the return-slot word; (size-fields) size-field menu^3 x 4 programs x 120 callee states; (two-records) 2 x 6 record kinds (incl. unknown type and inconsistent has_program) x 9 range arrangements x 2 file orders x 14 lookups; (x86-walk_stack) 81 programs + 2 FPO forms for the first step x 3 records for the second step (with grand callee) x 4 context validity sets through the real walk_stack, comparing the caller frame's validity set and register values. distinct_nontrivial = distinct (space, callee state / validity, reference outcome incl. register values); for two-records distinct (file, lookup).",
         );
         def.assumptions = vec![
